@@ -17,22 +17,53 @@ static Run* R;
 
 // =============================================================== hash tables
 // Key alphabet computed from the real hash function so that keys collide and wrap (slot cap-1 and 0).
+// First probe position ("home slot") of a key in a table of a given capacity, asked from the table type itself: an EMPTY table of
+// that capacity answers get_slot(key) with the home slot.  Nothing here assumes which hash function a table type uses.
+template <class Tbl>
+static const Tbl& empty_table(uint64_t cap) {
+    static std::map<uint64_t, Tbl*> cache;
+    auto it = cache.find(cap);
+    if (it != cache.end()) return *it->second;
+    Tbl* t = new Tbl();
+    memset((void*)t, 0, sizeof(Tbl));
+    t->resize(cap);
+    cache[cap] = t;
+    return *t;
+}
+template <class Tbl, class K>
+static uint64_t home_of(uint64_t cap, K key) {
+    const Tbl& e = empty_table<Tbl>(cap);
+    return (uint64_t)(e.get_slot(key) - e.items);
+}
 struct KeySearch {
-    std::vector<std::string> skeys;  // string keys
-    std::vector<Tag> tkeys;          // tag keys
+    std::vector<std::string> skeys;  // string keys (Map)
+    std::vector<Tag> tk[3];          // tag keys per table type: 0 Set<Tag>, 1 TagMap, 2 StyleMap (each searched with ITS home function)
 };
+template <class Tbl>
+static std::vector<Tag> find_tag_keys(int want, const int* plan) {
+    std::vector<Tag> tcand, out;
+    for (uint32_t t = 0; t < 8; t++)
+        for (uint32_t l = 0; l < 256; l++) tcand.push_back(make_tag(l, t));
+    std::vector<bool> tused(tcand.size());
+    for (int i = 0; i < want; i++) {
+        bool found = false;
+        for (size_t c = 0; c < tcand.size() && !found; c++)
+            if (!tused[c] && tcand[c] != 0 && (int)home_of<Tbl>(8, tcand[c]) == plan[i]) { tused[c] = true; out.push_back(tcand[c]); found = true; }
+        for (size_t c = 0; c < tcand.size() && !found; c++)   // no candidate with the planned home slot: any unused one
+            if (!tused[c] && tcand[c] != 0) { tused[c] = true; out.push_back(tcand[c]); found = true; }
+    }
+    return out;
+}
 static KeySearch find_keys(int want) {
     KeySearch ks;
     // wanted home slots modulo 8, in order: three at 7 (wrap), two at 0, two at 6, then any at 7 mod 16
-    int plan[] = {7, 7, 0, 7, 0, 6, 6, 7, 0, 5, 7, 0};
+    static const int plan[] = {7, 7, 0, 7, 0, 6, 6, 7, 0, 5, 7, 0};
     std::vector<std::string> cand;
     for (char a = 'a'; a <= 'z'; a++) cand.push_back(std::string(1, a));
     for (char a = 'a'; a <= 'z'; a++)
         for (char b = 'a'; b <= 'z'; b++) cand.push_back(std::string(1, a) + b);
-    std::vector<Tag> tcand;
-    for (uint32_t t = 0; t < 8; t++)
-        for (uint32_t l = 0; l < 256; l++) tcand.push_back(make_tag(l, t));
-    std::vector<bool> sused(cand.size()), tused(tcand.size());
+    std::vector<bool> sused(cand.size());
+    auto sh = [&](const std::string& k, uint64_t cap) { return (int)home_of<Map<uint64_t>>(cap, k.c_str()); };
     for (int i = 0; i < want; i++) {
         // keys 1 and 4 are EXTENSIONS of keys 0 and 2 (same home slot): a look-up that compares only a prefix, or only up to the
         // length of one of the two strings, confuses them exactly when they share a probe chain
@@ -41,14 +72,17 @@ static KeySearch find_keys(int want) {
             const std::string& base = ks.skeys[i == 1 ? 0 : 2];
             for (int pass = 0; pass < 2 && !extended; pass++)   // prefer an extension that collides modulo 16 as well
                 for (size_t c = 0; c < cand.size() && !extended; c++)
-                    if (!sused[c] && cand[c].size() > base.size() && cand[c].compare(0, base.size(), base) == 0 && (int)(hash(cand[c].c_str()) % 8) == plan[i] &&
-                        (pass == 1 || hash(cand[c].c_str()) % 16 == hash(base.c_str()) % 16)) { sused[c] = true; ks.skeys.push_back(cand[c]); extended = true; }
+                    if (!sused[c] && cand[c].size() > base.size() && cand[c].compare(0, base.size(), base) == 0 && sh(cand[c], 8) == plan[i] &&
+                        (pass == 1 || sh(cand[c], 16) == sh(base, 16))) { sused[c] = true; ks.skeys.push_back(cand[c]); extended = true; }
         }
         for (size_t c = 0; c < cand.size() && !extended; c++)
-            if (!sused[c] && (int)(hash(cand[c].c_str()) % 8) == plan[i]) { sused[c] = true; ks.skeys.push_back(cand[c]); break; }
-        for (size_t c = 0; c < tcand.size(); c++)
-            if (!tused[c] && tcand[c] != 0 && (int)(hash(tcand[c]) % 8) == plan[i]) { tused[c] = true; ks.tkeys.push_back(tcand[c]); break; }
+            if (!sused[c] && sh(cand[c], 8) == plan[i]) { sused[c] = true; ks.skeys.push_back(cand[c]); extended = true; }
+        for (size_t c = 0; c < cand.size() && !extended; c++)
+            if (!sused[c]) { sused[c] = true; ks.skeys.push_back(cand[c]); extended = true; }
     }
+    ks.tk[0] = find_tag_keys<Set<Tag>>(want, plan);
+    ks.tk[1] = find_tag_keys<TagMap>(want, plan);
+    ks.tk[2] = find_tag_keys<StyleMap>(want, plan);
     return ks;
 }
 static KeySearch KS;
@@ -77,17 +111,17 @@ struct MapAd {
         a.clear();
     }
     static bool occupied(const T& t, uint64_t s) { return t.items[s].key != NULL; }
-    static uint64_t home(const T& t, uint64_t s) { return hash((const char*)t.items[s].key) % t.capacity; }
+    static uint64_t home(const T& t, uint64_t s) { return home_of<T>(t.capacity, (const char*)t.items[s].key); }
     static std::string slot(const T& t, uint64_t s) { return std::string(t.items[s].key) + "=" + std::to_string(t.items[s].value - 100); }
     static bool same_key(const T& t, uint64_t a, uint64_t b) { return strcmp(t.items[a].key, t.items[b].key) == 0; }
 };
 struct SetAd {
     typedef Set<Tag> T;
     static const char* name() { return "set"; }
-    static void set(T& t, int k, int) { t.add(KS.tkeys[k]); }
-    static bool del(T& t, int k) { return t.del(KS.tkeys[k]); }
-    static int lookup(const T& t, int k, std::string&) { return t.has_value(KS.tkeys[k]) ? 1 : 0; }
-    static int key_index(Tag k) { for (size_t i = 0; i < KS.tkeys.size(); i++) if (KS.tkeys[i] == k) return (int)i; return -1; }
+    static void set(T& t, int k, int) { t.add(KS.tk[0][k]); }
+    static bool del(T& t, int k) { return t.del(KS.tk[0][k]); }
+    static int lookup(const T& t, int k, std::string&) { return t.has_value(KS.tk[0][k]) ? 1 : 0; }
+    static int key_index(Tag k) { for (size_t i = 0; i < KS.tk[0].size(); i++) if (KS.tk[0][i] == k) return (int)i; return -1; }
     static void iterate(const T& t, std::vector<std::pair<int, int>>& out, std::vector<int>& arr) {
         for (SetItem<Tag>* it = t.next(NULL); it; it = t.next(it)) out.push_back({key_index(it->value), 1});
         Array<Tag> a = {};
@@ -96,7 +130,7 @@ struct SetAd {
         a.clear();
     }
     static bool occupied(const T& t, uint64_t s) { return t.items[s].valid; }
-    static uint64_t home(const T& t, uint64_t s) { return hash(t.items[s].value) % t.capacity; }
+    static uint64_t home(const T& t, uint64_t s) { return home_of<T>(t.capacity, t.items[s].value); }
     static std::string slot(const T& t, uint64_t s) { return tagstr(t.items[s].value); }
     static bool same_key(const T& t, uint64_t a, uint64_t b) { return t.items[a].value == t.items[b].value; }
 };
@@ -104,26 +138,27 @@ static Tag tm_val(int vi) { return vi == 1 ? make_tag(1000, 1) : make_tag(1001, 
 struct TagMapAd {
     typedef TagMap T;
     static const char* name() { return "tagmap"; }
-    static void set(T& t, int k, int vi) { t.set(KS.tkeys[k], tm_val(vi)); }
-    static bool del(T& t, int k) { return t.del(KS.tkeys[k]); }
+    static void set(T& t, int k, int vi) { t.set(KS.tk[1][k], tm_val(vi)); }
+    static bool del(T& t, int k) { return t.del(KS.tk[1][k]); }
     static int lookup(const T& t, int k, std::string& err) {
-        bool h = t.has_key(KS.tkeys[k]);
-        Tag v = t.get(KS.tkeys[k]);
-        if (!h) { if (v != KS.tkeys[k]) err = "get of absent key != key"; return 0; }
+        bool h = t.has_key(KS.tk[1][k]);
+        Tag v = t.get(KS.tk[1][k]);
+        if (!h) { if (v != KS.tk[1][k]) err = "get of absent key != key"; return 0; }
         if (v == tm_val(1)) return 1;
         if (v == tm_val(2)) return 2;
         err = "get returned foreign value";
         return -1;
     }
+    static int key_index(Tag k) { for (size_t i = 0; i < KS.tk[1].size(); i++) if (KS.tk[1][i] == k) return (int)i; return -1; }
     static void iterate(const T& t, std::vector<std::pair<int, int>>& out, std::vector<int>& arr) {
         for (TagMapItem* it = t.next(NULL); it; it = t.next(it)) {
             int vi = it->value == tm_val(1) ? 1 : it->value == tm_val(2) ? 2 : -1;
-            out.push_back({SetAd::key_index(it->key), vi});
+            out.push_back({key_index(it->key), vi});
             arr.push_back(vi);
         }
     }
     static bool occupied(const T& t, uint64_t s) { return t.items[s].key != t.items[s].value; }
-    static uint64_t home(const T& t, uint64_t s) { return hash(t.items[s].key) % t.capacity; }
+    static uint64_t home(const T& t, uint64_t s) { return home_of<T>(t.capacity, t.items[s].key); }
     static std::string slot(const T& t, uint64_t s) { return tagstr(t.items[s].key) + "=" + (t.items[s].value == tm_val(1) ? "1" : t.items[s].value == tm_val(2) ? "2" : "?"); }
     static bool same_key(const T& t, uint64_t a, uint64_t b) { return t.items[a].key == t.items[b].key; }
 };
@@ -131,19 +166,20 @@ struct StyleAd {
     typedef StyleMap T;
     static const char* name() { return "stylemap"; }
     static const char* val(int vi) { return vi == 1 ? "s1" : "style-two"; }
-    static void set(T& t, int k, int vi) { t.set(KS.tkeys[k], val(vi)); }
-    static bool del(T& t, int k) { return t.del(KS.tkeys[k]); }
+    static void set(T& t, int k, int vi) { t.set(KS.tk[2][k], val(vi)); }
+    static bool del(T& t, int k) { return t.del(KS.tk[2][k]); }
     static int vidx(const char* v) { return !v ? 0 : !strcmp(v, val(1)) ? 1 : !strcmp(v, val(2)) ? 2 : -1; }
     static int lookup(const T& t, int k, std::string& err) {
-        int v = vidx(t.get(KS.tkeys[k]));
+        int v = vidx(t.get(KS.tk[2][k]));
         if (v < 0) err = "get returned foreign value";
         return v;
     }
+    static int key_index(Tag k) { for (size_t i = 0; i < KS.tk[2].size(); i++) if (KS.tk[2][i] == k) return (int)i; return -1; }
     static void iterate(const T& t, std::vector<std::pair<int, int>>& out, std::vector<int>& arr) {
-        for (Style* it = t.next(NULL); it; it = t.next(it)) { out.push_back({SetAd::key_index(it->tag), vidx(it->value)}); arr.push_back(vidx(it->value)); }
+        for (Style* it = t.next(NULL); it; it = t.next(it)) { out.push_back({key_index(it->tag), vidx(it->value)}); arr.push_back(vidx(it->value)); }
     }
     static bool occupied(const T& t, uint64_t s) { return t.items[s].value != NULL; }
-    static uint64_t home(const T& t, uint64_t s) { return hash(t.items[s].tag) % t.capacity; }
+    static uint64_t home(const T& t, uint64_t s) { return home_of<T>(t.capacity, t.items[s].tag); }
     static std::string slot(const T& t, uint64_t s) { return tagstr(t.items[s].tag) + "=" + std::to_string(vidx(t.items[s].value)); }
     static bool same_key(const T& t, uint64_t a, uint64_t b) { return t.items[a].tag == t.items[b].tag; }
 };
@@ -234,7 +270,7 @@ struct TableSys {
         } else {
             if (!is_tagmap) return false;
             int k = code - 5;
-            ((TagMap&)t).set(KS.tkeys[k], KS.tkeys[k]);
+            ((TagMap&)t).set(KS.tk[1][k], KS.tk[1][k]);
             o.model[k] = 0;
         }
         if (!check) return true;
@@ -761,9 +797,10 @@ int main(int argc, char** argv) {
     KS = find_keys(nk);
     {
         std::vector<std::string> ks;
-        for (int i = 0; i < nk; i++) ks.push_back(jstr(fmt("%s h%%8=%d h%%16=%d | tag %s h%%8=%d h%%16=%d", KS.skeys[i].c_str(), (int)(hash(KS.skeys[i].c_str()) % 8), (int)(hash(KS.skeys[i].c_str()) % 16),
-                                                          tagstr(KS.tkeys[i]).c_str(), (int)(hash(KS.tkeys[i]) % 8), (int)(hash(KS.tkeys[i]) % 16))));
-        run.note("colliding key alphabet (searched from the real hash function): " + jarr(ks));
+        for (int i = 0; i < nk; i++) ks.push_back(jstr(fmt("%s home8=%d home16=%d | set %s home8=%d | tagmap %s home8=%d | stylemap %s home8=%d", KS.skeys[i].c_str(), (int)home_of<Map<uint64_t>>(8, KS.skeys[i].c_str()),
+                                                          (int)home_of<Map<uint64_t>>(16, KS.skeys[i].c_str()), tagstr(KS.tk[0][i]).c_str(), (int)home_of<Set<Tag>>(8, KS.tk[0][i]), tagstr(KS.tk[1][i]).c_str(),
+                                                          (int)home_of<TagMap>(8, KS.tk[1][i]), tagstr(KS.tk[2][i]).c_str(), (int)home_of<StyleMap>(8, KS.tk[2][i]))));
+        run.note("colliding key alphabet (home slots asked from each table type itself): " + jarr(ks));
     }
     int tdepth = T ? 14 : 10;
     run_table<MapAd>(nk, tdepth);
